@@ -75,6 +75,7 @@ def run(ctx):
         r6(ctx, facts, cfg)
         r7_lookup(ctx, facts, cfg)
         r9_csv_writer(ctx, facts, cfg)
+        r10_get_valid_logger(ctx, facts, cfg)
         # the public entry point reaches the registry: Frontend::remove_logger(l) calls LoggerManager::remove_logger(l)
         from rules.common import forwards
         forwards(ctx, facts, cfg, "C17.R8", "quill::FrontendImpl::remove_logger", r"LoggerManager::remove_logger$",
@@ -613,3 +614,29 @@ def r9_csv_writer(ctx, facts, cfg):
         every = bool(mk) and not g.exists_path([g.entry_node], [g.exit_node], avoid_nodes=npos(f, mk) + thr)
         ctx.ob("C17.R9b", "CsvWriter::CsvWriter(%s):own-logger" % (f.rec["params"][1].get("ty") if len(f.rec["params"]) > 1 else "")[:30], named and every,
                "_logger is set on every path from create_or_get_logger(prefix + the caller's name, ...) (%s, %s)" % (named, every), fn=f)
+
+
+def r10_get_valid_logger(ctx, facts, cfg, rule="C17.R10"):
+    """R10: get_valid_logger (what the signal handler falls back to, and what users call to log 'through any logger') hands out a logger only
+    on the 'is valid' outcome — an invalidated logger may be freed by the backend at any time — and, when an exclusion text is given, only
+    one whose name does not contain it; under the registry lock."""
+    f = facts.need("quill::detail::LoggerManager::get_valid_logger", cfg)[0]
+    g = f.g
+    valid = [(b, t) for (b, t, c) in branches_on_call(f, r"LoggerBase::is_valid_logger$")]
+    rets = [(p, g.node_ast(p)) for p in g.return_nodes()]
+    nonnull = [p for (p, r) in rets if not is_null(strip(r.get("val"), casts=True))]
+    excl = f.rec["params"][0]["did"] if f.rec.get("params") else None
+    notfound = []
+    for bid, b in g.blocks.items():
+        c = g.term_cond(bid)
+        nc = norm_cmp(c) if c is not None else None
+        if nc and nc[0] in ("==", "!=") and any(is_call(x, r"basic_string<.*>::find\b") and any(var_ref(y) == excl for y in walk(x)) for x in walk(c)) and \
+                any(x["k"] == "DeclRefExpr" and x.get("name", "").endswith("npos") for x in walk(c)):
+            notfound.append((bid, "T" if nc[0] == "==" else "F"))       # label of 'name does not contain the exclusion text'
+    emp = [(b, t) for (b, t, c) in branches_on_call(f, r"basic_string_view<.*>::empty$|basic_string<.*>::empty$") if var_ref(call_obj(c)) == excl]
+    locks = [d for d in f.var_decls().values() if "LockGuard" in (d.get("ty") or "")]
+    ok = bool(valid) and bool(nonnull) and bool(locks) and not g.exists_path([g.entry_node], nonnull, avoid_edges=valid) and \
+        (excl is None or (bool(notfound) and bool(emp) and not g.exists_path([g.entry_node], nonnull, avoid_edges=notfound + emp)))
+    ctx.ob(rule, "LoggerManager::get_valid_logger:valid-and-not-excluded", ok,
+           "a logger is returned only through the 'is_valid_logger()' outcome and, with an exclusion text, only through 'the text is empty' or "
+           "'the name does not contain it' (%d / %d / %d tests), with the registry locked" % (len(valid), len(emp), len(notfound)), fn=f)
